@@ -98,7 +98,44 @@ def _c02(run):
     return (lambda e: set(c02.validate(run, e, 'self_C02'))), evs, bad, k
 
 
-DEMOS = {'C02': _c02, 'C10': _c10, 'C11': _c11, 'C12': _c12, 'C13': _c13, 'C14': _c14, 'C15': _c15, 'C16': _c16, 'C17': _c17}
+def _c04(run):
+    """Trace_C04 (also the trace specification of C08): traces of set / get / sheet / sizes events on the real Executor"""
+    from harness.props import c04, exec_common as xc
+    w = xc.World(run)
+    traces = [c04.record_trace(w, random.Random(s), 25) for s in (1, 2, 3)]
+    t, k = next((ti, ei) for ti, tr in enumerate(traces) for ei, e in enumerate(tr) if e['ev'] == 'get' and e['res'].get('k') == 'num')
+    bad = copy.deepcopy(traces)
+    bad[t][k]['res']['n'] += 1
+
+    def verdict(trs):
+        rej = c04.validate(run, trs, 'self_C04')
+        return {(ti, v[0]) for ti, v in rej.items()} if isinstance(rej, dict) else set(rej)
+    return verdict, traces, bad, (t + 1, k + 1)
+
+
+def _c18(run):
+    from harness.props import c18
+    recs = [{'sheets': [{'title': 'First', 'cells': [{'c': 1, 'r': 1, 'k': 'int'}, {'c': 2, 'r': 3, 'k': 'text'}], 'size': {'cols': 2, 'rows': 3}}], 'chartAt': 0},
+            {'sheets': [{'title': 'First', 'cells': [{'c': 3, 'r': 1, 'k': 'bool'}], 'size': {'cols': 3, 'rows': 1}},
+                        {'title': 'Second one', 'cells': [], 'size': {'cols': 0, 'rows': 0}}], 'chartAt': 0}]
+    evs = c18._job((0, recs, run.scratch))
+    bad = copy.deepcopy(evs)
+    bad[1]['sizes'][0]['cols'] += 1
+    return (lambda e: set(c18.validate(run, e, 'self_C18'))), evs, bad, 1
+
+
+def _c19(run):
+    from harness.props import c19
+    recs = [{'gate': [{'s': 1, 'c': 2, 'r': 3, 't': [ord(ch) for ch in 'eval(1)'], 'j': {}}]},
+            {'gate': [{'s': 2, 'c': 1, 'r': 1, 't': [ord(ch) for ch in '=SUM(A1:A2)'], 'j': {}}, {'s': 1, 'c': 4, 'r': 5, 't': [ord(ch) for ch in 'os.system("x")'], 'j': {}}]}]
+    evs = [e for e in c19._job((0, recs, run.scratch, False)) if not e['err']]
+    k = next(i for i, e in enumerate(evs) if e['raised'])
+    bad = copy.deepcopy(evs)
+    bad[k]['report'][0][0][-1] += 1          # the row digit of the reported address
+    return (lambda e: set(c19.validate(run, e, 'self_C19'))), evs, bad, k
+
+
+DEMOS = {'C04': _c04, 'C18': _c18, 'C19': _c19, 'C02': _c02, 'C10': _c10, 'C11': _c11, 'C12': _c12, 'C13': _c13, 'C14': _c14, 'C15': _c15, 'C16': _c16, 'C17': _c17}
 
 
 def main(tier='quick', seed=0):
@@ -111,8 +148,8 @@ def main(tier='quick', seed=0):
             verdict, evs, bad, k = demo(run)
             clean = verdict(evs)
             rejected = verdict(bad)
-            ok = not clean and rejected == {k + 1}
-            print(f'selftest {prop}: {len(evs)} recorded events accepted: {not clean}; corrupted event {k + 1} -> rejected {sorted(rejected)}: '
+            ok = not clean and rejected == ({k + 1} if isinstance(k, int) else {k})
+            print(f'selftest {prop}: {len(evs)} recorded events accepted: {not clean}; corrupted event {k + 1 if isinstance(k, int) else k} -> rejected {sorted(rejected)}: '
                   f'{"ok" if ok else "UNEXPECTED"}', flush=True)
             failed += 0 if ok else 1
         except Exception as e:  # noqa
